@@ -9,6 +9,11 @@ import (
 	"golang.org/x/tools/go/ssa"
 )
 
+// knownScanKinds lists the scan kinds runScan implements; the contract parser rejects every other word (an unknown
+// kind used to fall through to the writer scan, which found no writer and reported the obligation as discharged).
+var knownScanKinds = map[string]bool{"maprange": true, "gostmts": true, "recoverguard": true, "typekeys": true, "defercalls": true,
+	"assertorder": true, "extcalls": true, "pkgglobals": true, "fieldwriters": true, "globalwriters": true, "structfields": true}
+
 // runScan evaluates one syntactic obligation over the SSA of its package.
 func (p *Program) runScan(sc *Scan) *UnitResult {
 	id := fmt.Sprintf("%s#scan[%s %s]", sc.Pkg, sc.Kind, sc.Target)
@@ -122,6 +127,50 @@ func (p *Program) runScan(sc *Scan) *UnitResult {
 		} else {
 			o.Status = "sat"
 			o.Output = "functions that do not (or no longer) defer a recover(): " + strings.Join(offenders, ", ")
+		}
+		return res
+	}
+	if !knownScanKinds[sc.Kind] {
+		o.Status = "sat"
+		o.Output = "unknown scan kind " + sc.Kind
+		return res
+	}
+	if sc.Kind == "structfields" {
+		// structfields <Type>: f1 f2 ... - the named struct type of the package has exactly the listed fields (embedded
+		// fields by their type name). A field that is added has no recorded disposition; one that is removed leaves
+		// the listing stale. Either way the inventory the property argument rests on no longer describes the code.
+		var st *types.Struct
+		for _, pk := range p.prog.AllPackages() {
+			if pk.Pkg.Path() != sc.Pkg {
+				continue
+			}
+			if tn, ok := pk.Pkg.Scope().Lookup(sc.Target).(*types.TypeName); ok {
+				st, _ = tn.Type().Underlying().(*types.Struct)
+			}
+		}
+		if st == nil {
+			o.Status = "sat"
+			o.Output = "struct type " + sc.Target + " not found in " + sc.Pkg
+			return res
+		}
+		have := map[string]bool{}
+		for i := 0; i < st.NumFields(); i++ {
+			have[st.Field(i).Name()] = true
+			if !allowed[st.Field(i).Name()] {
+				offenders = append(offenders, "field "+st.Field(i).Name()+" ("+st.Field(i).Type().String()+") has no recorded disposition")
+			}
+		}
+		for _, a := range sc.Allowed {
+			if !have[a] {
+				offenders = append(offenders, "listed field "+a+" no longer exists")
+			}
+		}
+		if len(offenders) == 0 && st.NumFields() > 0 {
+			o.Status = "unsat"
+			o.Output = fmt.Sprintf("%s has exactly the %d listed fields", sc.Target, st.NumFields())
+		} else {
+			o.Status = "sat"
+			o.Output = strings.Join(offenders, "; ")
 		}
 		return res
 	}
